@@ -120,6 +120,10 @@ class Builtins:
             return self.ctx.opaque_method(I, args[0], name[len('extattr:'):], args[1:], kwargs, node)
         if name.startswith('object.'):
             return NONE
+        for pl in self.ctx.plugins:
+            r = pl.call(I, name, args, kwargs, node) if hasattr(pl, 'call') else NotImplemented
+            if r is not NotImplemented:
+                return r
         if name.startswith('extcontract:'):
             q = name[len('extcontract:'):]
             c = self.ctx.registry.contracts[('<ext>', q)]
